@@ -204,6 +204,15 @@ def run_c12(tier):
                 else:
                     doc[kk] = vv
             inputs.append(("alias-loops", [concretise.emit(doc, None).encode() + b"\n"], None, {}))
+    # ---- (b4) many files per pattern; long file and pattern names in scripts whose characters take several bytes
+    for nfiles in (17, 40, 300):
+        inputs.append(("many-files", [("parameters: {k%d: %d}\n" % (q, q)).encode() for q in range(nfiles)], ["in*.yaml"], {}))
+        inputs.append(("many-files", [b"services: [\n" if q % 7 == 3 else ("parameters: {k%d: %d}\n" % (q, q)).encode() for q in range(nfiles)], ["in*.yaml", "in1?.yaml"], {}))
+    for stem in ("\u043a\u043e\u043d\u0444\u0438\u0433\u0443\u0440\u0430\u0446\u0438\u044f-\u043a\u043e\u043d\u0442\u0435\u0439\u043d\u0435\u0440\u0430-\u0441\u0435\u0440\u0432\u0438\u0441\u043e\u0432", "\u8a2d\u5b9a" * 12, "\U0001F600" * 14, "a\u0301" * 30, "x" * 120,
+                 "\u043a" * 24, "\u043a" * 26, "\u8a2d" * 16, "\u8a2d" * 17):
+        inputs.append(("long-names", [pipeline.BASE.encode()], ["_NAME_"], {"_name": stem + ".yaml"}))
+        inputs.append(("long-names", [pipeline.BASE.encode()], ["_GLOB_"], {"_name": stem + ".yaml"}))
+        inputs.append(("long-names", [b"services: [\n"], ["_NAME_", "_GLOB_"], {"_name": stem + ".yaml"}))
     # ---- (b') odd directory entries matched by the patterns
     for odd in ("dangling", "selfloop", "dir", "linktodir", "linktofile", "big", "empty", "nul", "several"):
         for pat in ("*.yaml", "odd.yaml", "*", "o??.yaml"):
@@ -238,8 +247,12 @@ def run_c12(tier):
         d = os.path.join(wd, "x%06d" % i)
         os.makedirs(d)
         names = []
+        special = (flags or {}).pop("_name", None) if flags else None
         for k, data in enumerate(files):
             nm = "in.yaml" if k == 0 else "in%d.yaml" % k
+            if special and k == 0:
+                nm = special
+                pats = [nm if p_ == "_NAME_" else ("*" + nm[len(nm) // 2:] if p_ == "_GLOB_" else p_) for p_ in (pats or [])]
             with open(os.path.join(d, nm), "wb") as f:
                 f.write(data)
             names.append(nm)
